@@ -114,6 +114,15 @@ func judge(r *mon.Run, x []byte, class, detail string, mustAccept bool, sampleEv
 			r.Violation(key+":content", fmt.Sprintf("bundle.Read(%s) returned content that is not what the independent parser finds in the input: %s", id, d), det)
 		} else {
 			outcome = "accept-agree"
+			// the caller owns the returned bundle: edit its headers the way Exchange.AddPayloadIntegrity does, so that
+			// anything shared between the results of different Read calls shows up in the reads that follow
+			for _, e := range res.b.Exchanges {
+				if e.Response.Header != nil {
+					e.Response.Header.Set("Zz-Edited-By-Caller", "1")
+					e.Response.Header.Del("Content-Type")
+				}
+				e.Response.Status = 599
+			}
 		}
 	case res.err == nil && rerr.Class == rbundle.RejectLocation:
 		outcome = "OUT-OF-BOUNDS-ACCEPTED"
